@@ -241,7 +241,8 @@ fn load(insts: &[SInst], version: u32) -> Option<dr::Module> {
     let mut ws: Vec<u32> = HEADER.to_vec();
     ws[1] = version;
     for x in insts { ws.extend(x.encode()); }
-    dr::load_words(&ws).ok()
+    // a loader panic is C04's business (it sees the same modules through drive-disasm / drive-loader)
+    catch(|| dr::load_words(&ws)).ok().and_then(|r| r.ok())
 }
 
 pub fn drive(args: &[String]) {
